@@ -16,6 +16,7 @@ from `Generated/MomentsSrc.lean`, which the translator regenerates from the Pyth
 -/
 import FairModel.Model.Proto
 import FairModel.Generated.MomentsSrc
+import FairModel.Generated.LossRange
 
 namespace Moments
 
@@ -243,9 +244,24 @@ deriving Repr, DecidableEq
 
 def Loss.zeroOne : Loss := .absolute 0 1
 
+/-- `loss.eval(y, p)` on numpy arrays -/
 def Loss.eval : Loss → Rat → Rat → Rat
   | .square lo hi, y, p => MomentsSrc.squareLoss lo hi y p
   | .absolute lo hi, y, p => MomentsSrc.absoluteLoss lo hi y p
+
+/-- `loss.eval(y, p)` on pandas Series — the call made by `ConditionalLossMoment.gamma`.  It differs from `Loss.eval`
+    only when `max_val < min_val` (pandas swaps the bounds, numpy does not) -/
+def Loss.evalS : Loss → Rat → Rat → Rat
+  | .square lo hi, y, p => MomentsSrc.squareLossS lo hi y p
+  | .absolute lo hi, y, p => MomentsSrc.absoluteLossS lo hi y p
+
+/-- the loss object's own `min` / `max` attributes -/
+def Loss.declMin : Loss → Rat
+  | .square lo hi => LossRange.squareMin lo hi
+  | .absolute lo hi => LossRange.absoluteMin lo hi
+def Loss.declMax : Loss → Rat
+  | .square lo hi => LossRange.squareMax lo hi
+  | .absolute lo hi => LossRange.absoluteMax lo hi
 
 structure LRow where
   y : Rat
@@ -260,8 +276,9 @@ def bglIndex (rows : List LRow) : List String := sortedDistinct strLe (rows.map 
 def countG (rows : List LRow) (g : String) : Nat := (rows.filter (fun r => r.g == g)).length
 def probG (rows : List LRow) (g : String) : Rat := (countG rows g : Rat) / (rows.length : Rat)
 
+/-- `self.tags[_LOSS] = self.reduction_loss.eval(self.tags[_LABEL], self.tags[_PREDICTION])` (two Series) -/
 def lossOf (l : Loss) (rows : List LRow) (h : List Rat) : List Rat :=
-  List.zipWith (fun r p => l.eval r.y p) rows h
+  List.zipWith (fun r p => l.evalS r.y p) rows h
 
 /-- `tags.groupby(group_id).mean()[loss]` for group `g` -/
 def bglGammaAt (l : Loss) (rows : List LRow) (h : List Rat) (g : String) : Rat :=
@@ -350,7 +367,7 @@ def parseLoss (name lo hi : String) : Option Loss := do
   match name with
   | "square" => some (.square lo hi)
   | "absolute" => some (.absolute lo hi)
-  | "zeroone" => if lo = 0 ∧ hi = 1 then some Loss.zeroOne else none
+  | "zeroone" => if lo = LossRange.zeroOneLo ∧ hi = LossRange.zeroOneHi then some (.absolute lo hi) else none
   | _ => none
 
 def mkLRows (ys : List Rat) (gs : List String) : Option (List LRow) :=
@@ -368,6 +385,8 @@ def mkLRows (ys : List Rat) (gs : List String) : Option (List LRow) :=
   `mom.basis <kind> <mode> <ys> <gs> <cs>`                   -> `<pos matrix of columns> <neg matrix of columns>`
   `mom.err.gamma <fp> <fn> <ys> <h>` / `mom.err.sw <fp> <fn> <ys> <lam|none>` / `mom.err.costs <fp> <fn>`
   `mom.bgl.index <gs>` / `mom.bgl.gamma <loss> <lo> <hi> <ys> <gs> <h>` / `mom.bgl.sw <ys> <gs> <lam|none>`
+  `mom.loss.eval <loss> <lo> <hi> <arr|ser> <ys> <ps>` -> rats   (direct `loss.eval` on ndarrays / on Series)
+  `mom.loss.range <loss> <lo> <hi>` -> `<min> <max>`          (the loss object's attributes)
   `mom.relabel <w>` -> `<labels> <abs weights> <normalised weights>`
   `mom.w01 <z> <wt> <h>`
   `mom.lagr <err> <lam> <gamma> <bound>` -/
@@ -447,6 +466,18 @@ def handle (toks : List String) : Option String :=
     let lam ← parseRats lam
     if lam.length ≠ (bglIndex rows).length then none else
     pure (fmtRats (bglSignedWeights rows (some lam)))
+  | ["mom.loss.eval", loss, lo, hi, cont, ys, ps] => do
+    let l ← parseLoss loss lo hi
+    let ys ← parseRats ys
+    let ps ← parseRats ps
+    if ys.length ≠ ps.length then none else
+    match cont with
+    | "arr" => pure (fmtRats (List.zipWith l.eval ys ps))
+    | "ser" => pure (fmtRats (List.zipWith l.evalS ys ps))
+    | _ => none
+  | ["mom.loss.range", loss, lo, hi] => do
+    let l ← parseLoss loss lo hi
+    pure (fmtRat l.declMin ++ " " ++ fmtRat l.declMax)
   | ["mom.relabel", w] => do
     let w ← parseRats w
     pure (fmtRats (relabel w) ++ " " ++ fmtRats (absWeights w) ++ " " ++ fmtRats (egWeights w))
